@@ -434,6 +434,38 @@ func (a *List) M__ne__(other Object) (Object, error) {
 	return False, nil
 }
 
+func (a *List) M__lt__(other Object) (Object, error) {
+	b, ok := other.(*List)
+	if !ok {
+		return NotImplemented, nil
+	}
+	return sequenceOrder(a.Items, b.Items, Lt, func(la, lb int) bool { return la < lb })
+}
+
+func (a *List) M__le__(other Object) (Object, error) {
+	b, ok := other.(*List)
+	if !ok {
+		return NotImplemented, nil
+	}
+	return sequenceOrder(a.Items, b.Items, Le, func(la, lb int) bool { return la <= lb })
+}
+
+func (a *List) M__gt__(other Object) (Object, error) {
+	b, ok := other.(*List)
+	if !ok {
+		return NotImplemented, nil
+	}
+	return sequenceOrder(a.Items, b.Items, Gt, func(la, lb int) bool { return la > lb })
+}
+
+func (a *List) M__ge__(other Object) (Object, error) {
+	b, ok := other.(*List)
+	if !ok {
+		return NotImplemented, nil
+	}
+	return sequenceOrder(a.Items, b.Items, Ge, func(la, lb int) bool { return la >= lb })
+}
+
 type sortable struct {
 	l        *List
 	keyFunc  Object
